@@ -519,6 +519,8 @@ class CallMixin:
     def method_call(self, e, env, k):
         f = e.func
         recv = f.value
+        if src(f) in getattr(self.reg, "identity_calls", ()) and e.args:
+            return self.expr(e.args[0], env, k)      # e.g. Graph.normalize(G, 'G') on an object that is a graph already
         # Base.__init__(self, …) is handled at statement level; here: value-returning method calls
         if isinstance(recv, ast.Name) and recv.id == "self" and self.cls is not None and not self.in_init:
             fn = self.reg.method(self.cls, f.attr)
